@@ -284,7 +284,9 @@ def evaluate(case, res):
                         'task %s: attempts created %s and %s, %ds apart, '
                         'retry delay is %ds' % (
                             lab.any(t['id']), a['created_at'],
-                            b['created_at'], gap, dly), sig))
+                            b['created_at'], gap, dly),
+                        sig + (' join_retry' if (t['spec'] or {}).get(
+                            'join') is not None else '')))
             if t['state'] in trace.TASK_DONE and al and not crashed and \
                     t['state'] != 'CANCELLED' and \
                     'timed out' not in (t['state_info'] or '') and \
